@@ -507,27 +507,29 @@ Proof.
 Qed.
 
 (* ---------- an ingress transaction that fails to commit ---------- *)
-Lemma ingest_at_fail_cases fx w j sender ops :
-  ingest_at_fail fx w j sender ops = ingest_at fx w j sender ops \/
-  (w_nodes (ingest_at_fail fx w j sender ops) = w_nodes w /\ w_msgs (ingest_at_fail fx w j sender ops) = w_msgs w).
+Lemma ingest_at_fail_cases fx f w j sender ops :
+  ingest_at_fail fx f w j sender ops = ingest_at fx w j sender ops \/
+  (w_nodes (ingest_at_fail fx f w j sender ops) = w_nodes w /\ w_msgs (ingest_at_fail fx f w j sender ops) = w_msgs w).
 Proof.
   unfold ingest_at_fail. destruct ops as [|o ops]; [right; split; reflexivity|].
   destruct (w_nodes w !! j) as [nd|]; [|right; split; reflexivity].
-  destruct (ingest (n_eng nd) (o :: ops)) as [[e' acc] rej]. destruct acc; [left; reflexivity|right; split; reflexivity].
+  destruct f as [n|n k].
+  - destruct (ingest (n_eng nd) (o :: ops)) as [[e' acc] rej]. destruct acc; [left; reflexivity|right; split; reflexivity].
+  - destruct (ingest_abort k (n_eng nd) (o :: ops)); [right; split; reflexivity|left; reflexivity].
 Qed.
 
 Lemma InvU_ingest_at_f fx fn U w j sender ops :
   InvU U w -> (forall o, In o ops -> U o) -> InvU U (ingest_at_f fx fn w j sender ops).
 Proof.
-  intros I Hops. unfold ingest_at_f. destruct (bool_decide (fn = j)); [|apply InvU_ingest_at; assumption].
-  destruct (ingest_at_fail_cases fx w j sender ops) as [->|[E1 E2]]; [apply InvU_ingest_at; assumption|].
+  intros I Hops. unfold ingest_at_f. destruct (bool_decide (f_node fn = j)); [|apply InvU_ingest_at; assumption].
+  destruct (ingest_at_fail_cases fx fn w j sender ops) as [->|[E1 E2]]; [apply InvU_ingest_at; assumption|].
   eapply InvU_ext; [symmetry; exact E1|symmetry; exact E2|exact I].
 Qed.
 
 Lemma world_le_ingest_at_f fx fn w j sender ops : world_le w (ingest_at_f fx fn w j sender ops).
 Proof.
-  unfold ingest_at_f. destruct (bool_decide (fn = j)); [|apply world_le_ingest_at].
-  destruct (ingest_at_fail_cases fx w j sender ops) as [->|[E1 _]]; [apply world_le_ingest_at|].
+  unfold ingest_at_f. destruct (bool_decide (f_node fn = j)); [|apply world_le_ingest_at].
+  destruct (ingest_at_fail_cases fx fn w j sender ops) as [->|[E1 _]]; [apply world_le_ingest_at|].
   apply world_le_ext. symmetry. exact E1.
 Qed.
 
@@ -547,6 +549,27 @@ Proof.
   - split.
     + apply InvU_ingest_at_f; [exact I1|]. intros x Hx. exact (InvU_payload U w j x I Hx).
     + eapply world_le_trans; apply world_le_ingest_at_f.
+Qed.
+
+Lemma restart_steps U w n : InvU U w -> InvU U (restart w n) /\ world_le w (restart w n).
+Proof.
+  intros I. unfold restart. destruct (w_nodes w !! n) as [nd|] eqn:En; [|split; [exact I|apply world_le_refl]].
+  split.
+  - eapply (InvU_upd0 U w n nd _ (w_fbs w)); [exact I|exact En|..]; simpl.
+    + eapply InvU_keyed; eassumption.
+    + intros k o H. eapply InvU_eng; eassumption.
+    + intros k o H. rewrite lookup_empty in H. discriminate.
+    + lia.
+    + reflexivity.
+  - eapply (world_le_upd w n nd _ (w_msgs w) (w_fbs w)); [exact En|]. simpl. intros k d H. exists d. auto using entry_le_refl.
+Qed.
+
+Lemma write_cf_cases w n k lease del :
+  (write_cf w n k lease del).1 = w \/ exists lh, (write_cf w n k lease del).1 = restart w lh.
+Proof.
+  unfold write_cf. destruct (w_nodes w !! n) as [nd|]; [|left; reflexivity].
+  destruct (alloc nd n k lease del) as [lh|e]; [|left; reflexivity].
+  destruct (w_nodes w !! lh); [right; exists lh; reflexivity|left; reflexivity].
 Qed.
 
 (* ---------- one step ---------- *)
@@ -580,7 +603,7 @@ Theorem step_preserves fx T U w s :
   InvU U w -> ok_step U w s ->
   InvU (grow U (new_op w s)) (step fx T w s).1 /\ world_le w (step fx T w s).1.
 Proof.
-  intros I Hok. destruct s as [n k v lease|n k|n sender b|n|m n|i j late|f| |n|n p|n p|n p|n s filter|fn g|n s]; simpl in *.
+  intros I Hok. destruct s as [n k v lease|n k|n sender b|n|m n|i j late|f| |n|n p|n p|n p|n s filter|fn g|n k lease del|n s]; simpl in *.
   - apply step_write; assumption.
   - apply step_write; assumption.
   - split; [apply InvU_grow_None, InvU_ingest_at; assumption|apply world_le_ingest_at].
@@ -625,6 +648,9 @@ Proof.
         intros o Ho. eapply iu_sub; [exact I|]. eapply iw_msg; eassumption.
       * split; [apply InvU_grow_None, I|apply world_le_refl].
     + destruct (round_f_steps fx fn U w i j late I) as [I' L]. split; [apply InvU_grow_None, I'|exact L].
+  - destruct (write_cf_cases w n k lease del) as [->|[lh ->]].
+    + split; [apply InvU_grow_None, I|apply world_le_refl].
+    + destruct (restart_steps U w lh I) as [I' L]. split; [apply InvU_grow_None, I'|exact L].
   - unfold stall. destruct (w_nodes w !! n) as [nd|] eqn:En; [|split; [apply InvU_grow_None, I|apply world_le_refl]].
     split.
     + apply InvU_grow_None. eapply (InvU_upd0 U w n nd _ (w_fbs w)); [exact I|exact En|..]; simpl.
